@@ -30,3 +30,19 @@ DEFAULT_NOTE = ("Trusted: TLC, the hand-written specification's reading of the p
 NOTES = {}
 NOT_YET = {}
 HOOK_COMMITS = []
+
+SUITES.update({k: dict(mc="MC_Seq") for k in ("subs", "multi", "fin", "cold13", "subject", "share", "behavior", "group")})
+PLAN.update({
+    "C01": dict(quick=["unary", "chain2", "two", "flat", "subs", "group"], thorough=["unary", "chain2", "two", "flat", "subs", "group", "subject", "share", "behavior"]),
+    "C02": dict(quick=["subs", "multi", "fin"], thorough=["subs", "multi", "fin", "subject", "share", "behavior"]),
+    "C17": dict(quick=["subs", "multi"], thorough=["subs", "multi"]),
+    "C15": dict(quick=["fin"], thorough=["fin"]),
+})
+
+PLAN.update({
+    "C06": dict(quick=["subject"], thorough=["subject"]),
+    "C11": dict(quick=["share"], thorough=["share"]),
+    "C12": dict(quick=["behavior"], thorough=["behavior"]),
+    "C13": dict(quick=["cold13"], thorough=["cold13"]),
+    "C20": dict(quick=["group"], thorough=["group"]),
+})
